@@ -3,6 +3,7 @@ package main
 import (
 	"fmt"
 	"math/bits"
+	"sort"
 	"strings"
 )
 
@@ -239,6 +240,13 @@ func (tb *TermTable) Eq(a, b *Term) *Term {
 			return tb.Not(a)
 		}
 	}
+	// 0 = x - y  is  x = y
+	if a.IsConst() && a.val == 0 && b.op == OpBvSub {
+		return tb.Eq(b.args[0], b.args[1])
+	}
+	if b.IsConst() && b.val == 0 && a.op == OpBvSub {
+		return tb.Eq(a.args[0], a.args[1])
+	}
 	if a.id > b.id {
 		a, b = b, a
 	}
@@ -394,6 +402,18 @@ func (tb *TermTable) Bin(op Op, a, b *Term) *Term {
 			return a
 		}
 	}
+	if op == OpBvOr {
+		if r := tb.orByPieces(a, b); r != nil {
+			return r
+		}
+	}
+	if op == OpBvShl && b.IsConst() && int(b.val) < n && a.op != OpVar {
+		// x << k = concat(extract(x, n-1-k, 0), 0_k): keeps byte assembly in concat form
+		if ps, ok := tb.pieces(a, 0); ok && len(ps) > 1 {
+			k := int(b.val)
+			return tb.Concat(tb.Extract(a, n-1-k, 0), tb.Const(0, k))
+		}
+	}
 	if (op == OpBvAdd || op == OpBvMul || op == OpBvAnd || op == OpBvOr || op == OpBvXor) && a.id > b.id {
 		a, b = b, a
 	}
@@ -419,6 +439,26 @@ func (tb *TermTable) Cmp(op Op, a, b *Term) *Term {
 	}
 	if a == b {
 		return tb.Bool(op == OpBvUle || op == OpBvSle)
+	}
+	// comparisons against the extreme values of the domain
+	smax, smin := mask(n)>>1, uint64(1)<<uint(n-1)
+	switch op {
+	case OpBvSlt:
+		if (a.IsConst() && a.val == smax) || (b.IsConst() && b.val == smin) {
+			return tb.ff
+		}
+	case OpBvSle:
+		if (b.IsConst() && b.val == smax) || (a.IsConst() && a.val == smin) {
+			return tb.tt
+		}
+	case OpBvUlt:
+		if (a.IsConst() && a.val == mask(n)) || (b.IsConst() && b.val == 0) {
+			return tb.ff
+		}
+	case OpBvUle:
+		if (b.IsConst() && b.val == mask(n)) || (a.IsConst() && a.val == 0) {
+			return tb.tt
+		}
 	}
 	return tb.mk(&Term{op: op, sort: BoolSort, args: []*Term{a, b}})
 }
@@ -467,6 +507,31 @@ func (tb *TermTable) Extract(a *Term, hi, lo int) *Term {
 	if a.op == OpExtract {
 		return tb.Extract(a.args[0], hi+a.p2, lo+a.p2)
 	}
+	if a.op == OpConcat {
+		// straddles both halves
+		lw := a.args[1].sort.bits
+		return tb.Concat(tb.Extract(a.args[0], hi-lw, 0), tb.Extract(a.args[1], lw-1, lo))
+	}
+	if a.op == OpZext {
+		iw := a.args[0].sort.bits // lo < iw <= hi
+		return tb.Zext(tb.Extract(a.args[0], iw-1, lo), w)
+	}
+	if (a.op == OpBvLshr || a.op == OpBvShl) && a.args[1].IsConst() {
+		k := int(a.args[1].val)
+		if a.op == OpBvLshr && hi+k < a.sort.bits {
+			return tb.Extract(a.args[0], hi+k, lo+k)
+		}
+		if a.op == OpBvShl && lo >= k {
+			return tb.Extract(a.args[0], hi-k, lo-k)
+		}
+	}
+	if a.op == OpBvOr || a.op == OpBvAnd || a.op == OpBvXor {
+		// bitwise operators commute with extraction; worthwhile when a side collapses
+		x, y := tb.Extract(a.args[0], hi, lo), tb.Extract(a.args[1], hi, lo)
+		if x.IsConst() || y.IsConst() {
+			return tb.Bin(a.op, x, y)
+		}
+	}
 	return tb.mk(&Term{op: OpExtract, sort: BV(w), args: []*Term{a}, p1: hi, p2: lo})
 }
 
@@ -482,6 +547,15 @@ func (tb *TermTable) Concat(hi, lo *Term) *Term {
 	if w > 64 {
 		panic("concat wider than 64 bits")
 	}
+	if hi.IsConst() && hi.val == 0 {
+		return tb.Zext(lo, w)
+	}
+	// concat(extract(x,h,m+1), concat(extract(x,m,l), rest)) = concat(extract(x,h,l), rest)
+	if hi.op == OpExtract && lo.op == OpConcat && lo.args[0].op == OpExtract &&
+		lo.args[0].args[0] == hi.args[0] && hi.p2 == lo.args[0].p1+1 {
+		return tb.Concat(tb.Extract(hi.args[0], hi.p1, lo.args[0].p2), lo.args[1])
+	}
+	// a whole variable on top of an extract of itself cannot happen; a bare x on top of nothing is x
 	return tb.mk(&Term{op: OpConcat, sort: BV(w), args: []*Term{hi, lo}})
 }
 
@@ -640,3 +714,163 @@ func (t *Term) Eval(m map[string]uint64, memo map[*Term]uint64) uint64 {
 }
 
 var _ = bits.Len64
+
+// Deep prints the term fully expanded (debugging aid).
+func (t *Term) Deep(depth int) string {
+	if t.op == OpConst || t.op == OpVar || depth == 0 {
+		return t.ref()
+	}
+	var sb strings.Builder
+	sb.WriteByte('(')
+	switch t.op {
+	case OpExtract:
+		fmt.Fprintf(&sb, "extract%d_%d", t.p1, t.p2)
+	case OpZext:
+		sb.WriteString("zext")
+	case OpSext:
+		sb.WriteString("sext")
+	default:
+		sb.WriteString(opNames[t.op])
+	}
+	for _, a := range t.args {
+		sb.WriteByte(' ')
+		sb.WriteString(a.Deep(depth - 1))
+	}
+	sb.WriteByte(')')
+	return sb.String()
+}
+
+// piece is a bit range [lo, lo+w) of a word; t == nil means zero bits.
+type piece struct {
+	lo, w int
+	t     *Term
+}
+
+// pieces decomposes a word built from zero extension, constant shifts, concatenation and constants into
+// disjoint bit ranges (ascending). ok is false when t has no such structure (it is then one opaque piece).
+func (tb *TermTable) pieces(t *Term, depth int) ([]piece, bool) {
+	n := t.sort.bits
+	if depth > 12 {
+		return nil, false
+	}
+	switch t.op {
+	case OpConst:
+		if t.val == 0 {
+			return []piece{{0, n, nil}}, true
+		}
+		return []piece{{0, n, t}}, true
+	case OpZext:
+		iw := t.args[0].sort.bits
+		in, ok := tb.pieces(t.args[0], depth+1)
+		if !ok {
+			in = []piece{{0, iw, t.args[0]}}
+		}
+		return append(append([]piece{}, in...), piece{iw, n - iw, nil}), true
+	case OpConcat:
+		lw := t.args[1].sort.bits
+		lo, ok1 := tb.pieces(t.args[1], depth+1)
+		if !ok1 {
+			lo = []piece{{0, lw, t.args[1]}}
+		}
+		hi, ok2 := tb.pieces(t.args[0], depth+1)
+		if !ok2 {
+			hi = []piece{{0, n - lw, t.args[0]}}
+		}
+		out := append([]piece{}, lo...)
+		for _, p := range hi {
+			out = append(out, piece{p.lo + lw, p.w, p.t})
+		}
+		return out, true
+	case OpBvShl:
+		if !t.args[1].IsConst() || int(t.args[1].val) >= n {
+			return nil, false
+		}
+		k := int(t.args[1].val)
+		in, ok := tb.pieces(t.args[0], depth+1)
+		if !ok {
+			in = []piece{{0, n, t.args[0]}}
+		}
+		out := []piece{{0, k, nil}}
+		for _, p := range in {
+			if p.lo+k >= n {
+				break
+			}
+			w := p.w
+			q := p.t
+			if p.lo+k+w > n {
+				w = n - p.lo - k
+				if q != nil {
+					q = tb.Extract(q, w-1, 0)
+				}
+			}
+			out = append(out, piece{p.lo + k, w, q})
+		}
+		return out, true
+	}
+	return nil, false
+}
+
+// orByPieces rewrites a | b as a concatenation when both sides are piecewise and never both non-zero on
+// the same bit (the shape of binary.LittleEndian.Uint64 and friends); nil when it does not apply.
+func (tb *TermTable) orByPieces(a, b *Term) *Term {
+	n := a.sort.bits
+	pa, oka := tb.pieces(a, 0)
+	pb, okb := tb.pieces(b, 0)
+	if !oka || !okb || (len(pa) < 2 && len(pb) < 2) {
+		return nil
+	}
+	// split at the union of boundaries
+	cuts := map[int]bool{0: true, n: true}
+	for _, p := range pa {
+		cuts[p.lo] = true
+	}
+	for _, p := range pb {
+		cuts[p.lo] = true
+	}
+	var bs []int
+	for c := range cuts {
+		bs = append(bs, c)
+	}
+	sort.Ints(bs)
+	at := func(ps []piece, lo, hi int) (*Term, bool) { // bits [lo,hi) of the word; (nil,true) = zero
+		for _, p := range ps {
+			if lo >= p.lo && hi <= p.lo+p.w {
+				if p.t == nil {
+					return nil, true
+				}
+				return tb.Extract(p.t, hi-1-p.lo, lo-p.lo), true
+			}
+		}
+		return nil, false
+	}
+	var res *Term
+	for i := 0; i+1 < len(bs); i++ {
+		lo, hi := bs[i], bs[i+1]
+		x, ok1 := at(pa, lo, hi)
+		y, ok2 := at(pb, lo, hi)
+		if !ok1 || !ok2 {
+			return nil
+		}
+		var seg *Term
+		switch {
+		case x == nil && y == nil:
+			seg = tb.Const(0, hi-lo)
+		case x == nil:
+			seg = y
+		case y == nil:
+			seg = x
+		case x.IsConst() && y.IsConst():
+			seg = tb.Const(x.val|y.val, hi-lo)
+		case x == y:
+			seg = x
+		default:
+			return nil
+		}
+		if res == nil {
+			res = seg
+		} else {
+			res = tb.Concat(seg, res)
+		}
+	}
+	return res
+}
